@@ -888,17 +888,17 @@ def exhaustive_strides(tier, shard, nshards):
 
 
 CLAUSES = [
-    Clause("roundtrip", roundtrip_case(), run_roundtrip, quick=400, thorough=4000,
+    Clause("roundtrip", roundtrip_case(), run_roundtrip, quick=320, thorough=4000,
            exhaustive=exhaustive_rowcounts),
-    Clause("stride", ragged_case(min_rows=2, with_stride=True), run_stride, quick=300, thorough=4000,
+    Clause("stride", ragged_case(min_rows=2, with_stride=True), run_stride, quick=240, thorough=4000,
            exhaustive=exhaustive_strides),
     Clause("stride_single", single_case(), run_stride_single, quick=200, thorough=3000),
-    Clause("keys", ragged_case(min_rows=2, with_keys=True), run_keys, quick=300, thorough=4000),
+    Clause("keys", ragged_case(min_rows=2, with_keys=True), run_keys, quick=240, thorough=4000),
     Clause("striped_h5", striped_case(), run_striped_h5, quick=160, thorough=3000),
     Clause("roundtrip_big", roundtrip_case(big=True), run_roundtrip, quick=0, thorough=1500),
     Clause("keys_big", ragged_case(min_rows=2, big=True, with_keys=True), run_keys, quick=0, thorough=1000),
-    Clause("bulk_concat", bulk_case(), run_bulk_concat, quick=96, thorough=480),
-    Clause("bulk_schedule", bulk_case(n_configs=2), run_bulk_schedule, quick=40, thorough=240),
+    Clause("bulk_concat", bulk_case(), run_bulk_concat, quick=72, thorough=480),
+    Clause("bulk_schedule", bulk_case(n_configs=2), run_bulk_schedule, quick=32, thorough=240),
     Clause("bulk_concat_formats", bulk_case(formats=("h5", "h5", "xtc", "dcd")), run_bulk_concat, quick=0, thorough=240),
     Clause("bulk_schedule_formats", bulk_case(formats=("h5", "h5", "h5", "xtc"), n_configs=2), run_bulk_schedule,
            quick=0, thorough=120),
